@@ -271,7 +271,18 @@ pub fn run(rep: &mut Report, rng: &mut Rng, thorough: bool) {
                     ends.push(end);
                     end -= ms;
                 }
-                if ends.len() >= 2 && r.chance(1, 2) {
+                if r.chance(1, 4) {
+                    // damage at the FRONT of the file, where the backward scan of LZIPReaderMT arrives last: 1..=25 bytes
+                    // of junk in front of the first member, or the first member cut down to its last 1..=25 bytes
+                    let n = r.range(1, 25) as usize;
+                    let first_end = ends.last().copied().unwrap_or(0);
+                    if ends.len() >= 2 && first_end > n && r.chance(1, 2) {
+                        m.drain(..first_end - n);
+                    } else {
+                        let junk = if r.chance(1, 3) { m[m.len() - n.min(m.len())..].to_vec() } else { r.bytes(n) };
+                        m.splice(0..0, junk);
+                    }
+                } else if ends.len() >= 2 && r.chance(1, 2) {
                     // a trailer field of a member (not only the last one) at an extreme value
                     let e = *r.pick(&ends);
                     let field = *r.pick(&[(8usize, 8usize), (16, 8), (20, 4)]); // member_size, data_size, crc
